@@ -109,6 +109,9 @@ type Violation struct {
 type Run struct {
 	Prop  string
 	Level string
+	// ShrinkTime overrides rapid's minimisation budget (default 20s). Checks
+	// whose failing runs are expensive (liveness ceilings) use a small value.
+	ShrinkTime string
 
 	mu          sync.Mutex
 	start       time.Time
@@ -343,6 +346,8 @@ func (r *Run) Rapid(t *testing.T, name string, checks int, prop func(*rapid.T)) 
 	_ = flag.Set("rapid.nofailfile", "true")
 	if os.Getenv("VERIF_SHRINKTIME") != "" {
 		_ = flag.Set("rapid.shrinktime", os.Getenv("VERIF_SHRINKTIME"))
+	} else if r.ShrinkTime != "" {
+		_ = flag.Set("rapid.shrinktime", r.ShrinkTime)
 	} else {
 		_ = flag.Set("rapid.shrinktime", "20s")
 	}
